@@ -1621,6 +1621,10 @@ def g_N01(src, ast_line, sema_line, f):
              "bitstring_suffix_accepted": lambda x: _BITSTR_CANON.match(x)}[f[1]]
     for i in range(1, len(text)):
         if canon(text[:i]) is not None and _IDENT_TAIL.match(text[i:]):
+            # a time unit or `im` glued to a number is NOT this finding: the lexer of the pinned code always splits
+            # `5ns`, `.5ns`, `2im` into number + identifier, so such a single token never reaches the accessors there
+            if f[1] != "bitstring_suffix_accepted" and text[i:] in ("s", "ms", "us", "µs", "ns", "dt", "im"):
+                return False
             return True
     return False
 
